@@ -10,6 +10,7 @@ pub mod c05;
 pub mod c06;
 pub mod c07;
 pub mod c10;
+pub mod c12;
 pub mod c13;
 pub mod util;
 
@@ -33,6 +34,10 @@ pub fn scenario(name: &str) -> Option<Scenario> {
         "c07_flow_throttling" => c07::c07_flow_throttling,
         "c07_hotspot_throttling" => c07::c07_hotspot_throttling,
         "c10_manager" => c10::c10_manager,
+        "c12_flow" => c12::c12_flow,
+        "c12_breaker" => c12::c12_breaker,
+        "c12_hotspot" => c12::c12_hotspot,
+        "c12_iso_sys" => c12::c12_iso_sys,
         "c13_chain" => c13::c13_chain,
         _ => return None,
     })
